@@ -28,6 +28,17 @@ from .cfg import stmt_facts
 from .resolve import Resolver
 
 
+# exceptions documented / observed for standard-library entry points that
+# receive data from outside (beyond what their `except` clause in the repo
+# usually names)
+STDLIB_RAISES = {
+    # expat: "unknown encoding: <name>" for the encoding named in the XML
+    # declaration is a LookupError, not a SAXParseException; a non-bytes
+    # argument is a TypeError
+    'xml.sax.parseString': ('SAXParseException', 'LookupError', 'TypeError'),
+}
+
+
 class Esc:
     __slots__ = ('exc', 'kind', 'file', 'func', 'construct', 'line', 'chain')
 
@@ -520,6 +531,10 @@ class EscapeAnalysis:
                     e = Esc('UnicodeError', 'decode', func.file,
                             func.qualname, norm(call), call.lineno)
                     _put(out, e)
+        d_ = dotted(call.func) or ''
+        for exc_ in STDLIB_RAISES.get(d_, ()):
+            _put(out, Esc(exc_, 'stdlib', func.file, func.qualname,
+                          norm(call), call.lineno))
         if self.call_escapes is not None:
             extra = self.call_escapes(call, func)
             if extra:
